@@ -499,7 +499,9 @@ type node struct {
 	ptr  []string
 }
 
-var docLayouts = []string{"file:///v/r/root.json", "file:///v/r/other.json", "file:///v/r/sub/s.json", "file:///v/p.json", "file:///v/q/o.json", "http://h.example/api/x.json"}
+var docLayouts = []string{"file:///v/r/root.json", "file:///v/r/other.json", "file:///v/r/sub/s.json", "file:///v/p.json", "file:///v/q/o.json", "http://h.example/api/x.json",
+	// the same path with a query: another document (the query is part of what identifies a document served over http)
+	"http://h.example/api/x.json?rev=2"}
 
 // twinLayouts: documents that share their URL path with another document (other host, other scheme), or whose
 // URL is a textual prefix / extension of another's: code that identifies documents by path alone or by string
@@ -508,12 +510,15 @@ var twinLayouts = []string{"file:///v/r/root.json", "http://h.example/v/r/root.j
 	"file:///v/r/root.jsonx", "file:///v/r/root.json.d/s.json", "http://h.example/v/r/root.json2",
 	"file:///v/r-common/items.json", "file:///v/r2/o.json", "file:///v/rr.json",
 	// same host name, another port; same location up to letter case (two different documents)
-	"http://h.example:8080/v/r/root.json", "file:///v/r/Root.json", "file:///v/R/root.json"}
+	"http://h.example:8080/v/r/root.json", "file:///v/r/Root.json", "file:///v/R/root.json",
+	// same scheme, host and path, told apart by their query only
+	"http://h.example/v/r/root.json?rev=2", "http://h.example/v/r/root.json?rev=3"}
 
 // httpLayouts: the root document itself is served over http
 var httpLayouts = []string{"http://h.example/api/root.json", "http://h.example/api/other.json", "http://h.example/api/sub/s.json", "https://o.example/x.json", "http://h.example/p.json",
 	// the root's host name on another port: another site (same path as the root, and a sibling of it)
-	"http://h.example:8080/api/root.json", "http://h.example:8080/api/other.json", "http://h.example/api/Other.json"}
+	"http://h.example:8080/api/root.json", "http://h.example:8080/api/other.json", "http://h.example/api/Other.json",
+	"http://h.example/api/other.json?v=2", "http://h.example/api/root.json?v=2"}
 
 // escLayouts: locations whose spelling needs percent-escapes in every document URL
 var escLayouts = []string{"file:///v/my%20api/root.json", "file:///v/my%20api/other%20one.json", "file:///v/my%20api/v%5B2%5D/s.json", "file:///v/%C3%A9t%C3%A9/p.json", "file:///v/my%20api/q%20r/o.json"}
@@ -540,6 +545,12 @@ func relSpelling(r *rand.Rand, from, to string, ptr []string, vary bool) string 
 	fu, _ := url.Parse(from)
 	tu, _ := url.Parse(to)
 	if fu.Scheme != tu.Scheme || fu.Host != tu.Host || (vary && r.Intn(5) == 0) {
+		return to + frag
+	}
+	if fu.RawQuery != "" || tu.RawQuery != "" {
+		// documents told apart by a query are referred to, and refer to others, by absolute URL only: the library
+		// lets a relative reference inherit the query of its base (its own tests pin that), which is outside the
+		// reference classes the properties quantify over
 		return to + frag
 	}
 	fd := strings.Split(strings.TrimPrefix(fu.Path, "/"), "/")
@@ -716,6 +727,10 @@ func Generate(r *rand.Rand, o Options) *World {
 		}
 		if r.Intn(5) == 0 {
 			s = s.Set("example", wire.ObjV(wire.M("$ref", wire.StrV("#/not/a/reference"))))
+		}
+		if r.Intn(4) == 0 {
+			// a scalar type beside composition keywords is legal JSON Schema: the keywords are walked all the same
+			s = s.Set("type", wire.StrV(types[r.Intn(len(types))]))
 		}
 		return s
 	}
